@@ -430,6 +430,25 @@ def disk_model(ctx, w):
         r0 = vlib.tlc("SodDisk", DISK_CFG % dict(dev="", **kw), w.sub("disk0"), workers=vlib.NCPU, timeout=900, heap="8g")
         log("  [SodDisk] without deviation the model exhibits the finding: %s" % bool(r0.violated))
         ctx.extra_cov["disk_model_exhibits_known_finding"] = bool(r0.violated)
+    # the asynchronous protocol (spec/SodDiskAsync.tla): memory-only writes, deletes / commits / flushes one file at a time in any order
+    aknown = [k["deviation"] for k in load_known()["findings"] if k.get("status") == "known" and k["property"] == "C05" and k["deviation"] in ("AsyncStaleIndex", "AsyncUniqueClash")]
+    acfg = ("SPECIFICATION Spec\nCONSTANTS\n  Slots = {%s}\n  KVals = {%s}\n  AVals = {0}\n  MaxOps = %d\n  Dev = {%s}\nINVARIANTS CrashSafeOrKnown QuiescentOK\nCHECK_DEADLOCK FALSE\n")
+    akw = (ctx.q("1, 2", "1, 2, 3"), ctx.q("0, 1", "0, 1, 2"), ctx.q(5, 7))
+    ra = vlib.tlc("SodDiskAsync", acfg % (akw + (", ".join('"%s"' % d for d in aknown),)), w.sub("diska"), workers=vlib.NCPU, timeout=1500, heap="10g")
+    ctx.mc_states += ra.distinct
+    ctx.mc_transitions += ra.generated
+    ctx.extra_cov["async_disk_model_states"] = ra.distinct
+    log("  [SodDiskAsync] design-level crash model of the asynchronous protocol with deviations {%s}: %d states = crash points, %s" %
+        (", ".join(aknown), ra.distinct, "CrashSafe or known shape everywhere" if ra.completed else "** " + ", ".join(ra.violated)))
+    if not ra.completed:
+        raise vlib.Inconclusive("the design-level asynchronous crash model has a crash point outside the recorded shapes (model result, to be confirmed on the code):\n" + ra.out[-2500:])
+    exhibits = {}
+    for dv in aknown:
+        r1 = vlib.tlc("SodDiskAsync", acfg % (("1, 2", "0, 1", 5) + (", ".join('"%s"' % d for d in aknown if d != dv),)), w.sub("diska-" + dv), workers=4, timeout=600, heap="4g")
+        exhibits[dv] = bool(r1.violated)
+    if aknown:
+        log("  [SodDiskAsync] without each deviation the model exhibits the finding: %s" % exhibits)
+        ctx.extra_cov["async_disk_model_exhibits_known_findings"] = exhibits
     # binding (drift note, not a verdict): the file-system steps recorded on the real code have the shape the model assumes:
     # object files first, schema last, each through a temporary file renamed into place
     drift = 0
@@ -441,7 +460,7 @@ def disk_model(ctx, w):
             if '"ev":"hdr"' in line:
                 sync = not json.loads(line)["cfg"]["async"]
                 continue
-            if not sync or '"ev":"crash"' not in line:
+            if '"ev":"crash"' not in line:
                 continue
             e = json.loads(line)
             if e.get("ev") != "crash":
@@ -456,14 +475,15 @@ def disk_model(ctx, w):
                                 "S" if s.startswith("rename") else "x" if s.startswith("remove") else "t" for s in cur)
                 # (object files through temp+rename, or removals)* then the schema through temp+rename; a chunked
                 # bulk insert is a sequence of such commits
-                if not re.fullmatch(r"((m?(t+r|x))*m?t+S)+", kinds):
+                # asynchronous: object files (flush) or a removal (delete) first, then the schema if the call commits (a chunked batch commits once per chunk)
+                if not re.fullmatch(r"((m?(t+r|x))*m?t+S)+" if sync else r"(m?(t+r|x))*(m?t+S)*", kinds):
                     drift += 1
     ctx.extra_cov["fs_step_sequences_checked"] = calls
     if drift:
         log("NOTE model-drift: %d of %d recorded calls do not have the step shape SodDisk assumes; the design-level result is not applicable to this tree" % (drift, calls))
         ctx.extra_cov["disk_model_drift"] = drift
     else:
-        log("  [SodDisk] %d recorded calls have the step shape the model assumes (objects through temp+rename first, schema last)" % calls)
+        log("  [SodDisk / SodDiskAsync] %d recorded calls have the step shape the models assume (objects through temp+rename first, schema last)" % calls)
 
 
 def count_events(ctx, w, kind, inner=lambda e: e.get("k", 1) not in (0, e.get("n", -1))):
